@@ -25,6 +25,9 @@ def illegal_tail(rng, s, model):
             for bid, b in info["bodies"].items():
                 here = (tid, bid) in stk
                 top = bool(stk) and stk[-1] == (tid, bid)
+                if b["st"] == "R" and here and not top:
+                    cands.append((t, "p", tid, bid, "pause a running body that is not on top of the stack"))
+                    cands.append((t, "e", tid, bid, "end a running body that is not on top of the stack"))
                 if b["st"] == "R":
                     cands.append((t, "x", tid, bid, "execute a body that is already running"))
                     cands.append((t, "r", tid, bid, "resume a running body"))
@@ -56,7 +59,8 @@ def illegal_tail(rng, s, model):
                     cands.append((t, "x", tid, 0, "nest a task over a running one"))
     if not cands:
         return None
-    (t, kind, tid, bid, why) = rng.choice(cands)
+    special = [c for c in cands if "not on top" in c[4]]
+    (t, kind, tid, bid, why) = rng.choice(special) if special and rng.chance(2, 3) else rng.choice(cands)
     payload = u32(tid) + u32(bid) if model == "nosv" else u32(tid)
     s.events.append((t, clk, M + "T" + kind, payload))
     return why
@@ -81,6 +85,7 @@ def run(chk):
             r = rng.fork("%s-b%d" % (model, i))
             s = gen_hist.base_scenario(r, tables, models=["ovni", model], nlooms=1)
             s.stop_before_winddown = True
+            s.prefer_nesting = True
             gen_hist.task_history(r, s, tables, model, build, wrong_num=0)
             why = illegal_tail(r, s, model)
             if why:
@@ -116,6 +121,13 @@ def run(chk):
                             chk.violation("task-view:" + key, "thread row %d shows task id %d at t=%d, the running body is %s (thread %s)" % (g[t] + 1, got, clk - t0, running, tst),
                                           {"scenario": desc})
                             break
+                        pr = (s.threads[t]["loom"], s.threads[t]["pid"])
+                        wantty = s.gid[s.task_info[pr][running[0]]["label"]] if (running and tst == "Running") else 0
+                        gotty = emucore.timeline(r["rows"].get((0, g[t] + 1, ty["type"]), []), clk - t0)
+                        if gotty != wantty:
+                            chk.violation("type-view:" + key, "thread row %d shows task type %d at t=%d, the running body's task has type %d" % (g[t] + 1, gotty, clk - t0, wantty),
+                                          {"scenario": desc})
+                            break
                         if "body" in ty:
                             wantb = (running[1] if running[1] else 1) if (running and tst == "Running") else 0
                             gotb = emucore.timeline(r["rows"].get((0, g[t] + 1, ty["body"]), []), clk - t0)
@@ -123,8 +135,14 @@ def run(chk):
                                 chk.violation("body-view:" + key, "thread row %d shows body id %d at t=%d, expected %d" % (g[t] + 1, gotb, clk - t0, wantb), {"scenario": desc})
                                 break
             elif kind == "illegal":
-                if r["rc"] == 0:
-                    chk.violation("accepts-illegal-task-op:" + key, "ovniemu accepts a history that ends with a forbidden operation: %s" % whys[idx - len(clean)],
+                # the forbidden operation itself must be what the emulator refuses (its panic report names the event)
+                last = s.events[-1]
+                import re as _re
+                m_ = _re.search(r"rclock=(\d+)", r["stderr"])
+                refused_here = r["rc"] != 0 and m_ is not None and int(m_.group(1)) == last[1] and ("mcv=" + last[2]) in r["stderr"]
+                if not refused_here:
+                    chk.violation("accepts-illegal-task-op:" + key, "ovniemu does not refuse the forbidden operation at the end of the history (%s): exit %s, %s" % (
+                                  whys[idx - len(clean)], r["rc"], emucore._first_error(r["stderr"])),
                                   {"scenario": desc, "operation": whys[idx - len(clean)]})
             if m is not None:
                 d = emucore.compare(s, r, m)
